@@ -70,7 +70,10 @@ Definition add_dataset_from_fee (e : env) (s : seg) (g : graph) : res (list data
                                if tyis a "alias_expression" then
                                  let inner := list_child_segments a true in
                                  match inner with
-                                 | _ :: x :: _ => Ok (Some (raw x))
+                                 | f :: x :: _ =>
+                                     (* after fix F12: the second child is the alias only after AS *)
+                                     if tyis f "alias_operator" || (tyis f "keyword" && String.eqb (raw_upper f) "AS")
+                                     then Ok (Some (raw x)) else Ok (Some (raw f))
                                  | [x] => Ok (Some (raw x))
                                  | [] => Err EIndex
                                  end
